@@ -10,7 +10,7 @@ git -C $WT checkout -q -- .
 git -C $WT apply "$PATCH" || { echo "patch does not apply"; exit 3; }
 cd /verif
 VERIF_REPO=$WT VERIF_BUILD_ROOT=/var/tmp/mut-build bin/build.sh asan || { echo BUILD-FAILED; git -C $WT checkout -q -- .; exit 2; }
-mkdir -p /var/tmp/mut-out
+mkdir -p /var/tmp/mut-out; cp /verif/known_findings.json /var/tmp/mut-out/
 for P in "$@"; do
   T0=$(date +%s.%N)
   /var/tmp/mut-build/asan/vsim run --property $P --seed ${VERIF_SEED:-1} --verif-dir /var/tmp/mut-out ${MUT_ARGS} > /var/tmp/mut-out/$P.log 2>&1
